@@ -1,0 +1,63 @@
+//go:build verif && (verif_all || verif_c11)
+// +build verif
+// +build verif_all verif_c11
+
+package gocql
+
+// Verification hooks (build tag `verif`) for the host selection policies, sixth file: a GATE for
+// concurrent notifier calls. Every AddHost / RemoveHost / HostUp / HostDown of every policy reads the
+// connect address of the hosts it scans (cowHostList.add: host.Equal(l[i]); cowHostList.remove:
+// l[i].ConnectAddress()), which takes the read lock of that HostInfo. Holding the write lock of ONE
+// listed host therefore parks every concurrent call at its first read of that host - inside whatever
+// critical section the call is in at that moment - until the gate is opened: the schedule "all calls
+// of the burst are in progress at once" is produced on purpose instead of being left to the scheduler.
+// Also: a query whose GetRoutingKey fails, and the fallback policy of a token-aware policy (to ask it for
+// HostTier / MaxHostTier). Add-only; nothing inside the policies is touched.
+
+import (
+	"errors"
+	"fmt"
+)
+
+// VerifHostGate closes the gate on h (takes h's write lock) and returns the function that opens it.
+func VerifHostGate(h *HostInfo) (open func()) {
+	h.mu.Lock()
+	return h.mu.Unlock
+}
+
+// verifQueryErr is a verifQuery whose routing key cannot be computed.
+type verifQueryErr struct{ verifQuery }
+
+func (q *verifQueryErr) GetRoutingKey() ([]byte, error) {
+	return nil, errors.New("verif: routing key unavailable")
+}
+
+// VerifQueryErr returns a query on `keyspace` whose GetRoutingKey returns an error.
+func VerifQueryErr(keyspace string, routingKey []byte) ExecutableQuery {
+	return &verifQueryErr{verifQuery{keyspace, routingKey}}
+}
+
+// VerifTAFallback returns the fallback policy of a token-aware policy.
+func VerifTAFallback(p HostSelectionPolicy) HostSelectionPolicy {
+	return p.(*tokenAwareHostPolicy).fallback
+}
+
+// VerifTAKeyspacesOpts is VerifTAKeyspaces with the full option map of a keyspace (NetworkTopologyStrategy:
+// one option per datacenter), ok=false = the keyspace is unknown.
+func VerifTAKeyspacesOpts(p HostSelectionPolicy, sessionKs string, lookup func(ks string) (class string, opts map[string]interface{}, ok bool)) {
+	t := p.(*tokenAwareHostPolicy)
+	t.mu.Lock()
+	defer t.mu.Unlock()
+	t.getKeyspaceName = func() string { return sessionKs }
+	t.getKeyspaceMetadata = func(ks string) (*KeyspaceMetadata, error) {
+		class, opts, ok := lookup(ks)
+		if !ok {
+			return nil, fmt.Errorf("verif: keyspace %q does not exist", ks)
+		}
+		o := map[string]interface{}{"class": class}
+		for k, v := range opts {
+			o[k] = v
+		}
+		return &KeyspaceMetadata{Name: ks, StrategyClass: class, StrategyOptions: o}, nil
+	}
+}
